@@ -100,7 +100,18 @@ func loadProgram(o loadOpts) (*Program, error) {
 	}
 	p.AllPkgs = pkgs
 	prog, ssapkgs := ssautil.AllPackages(pkgs, ssa.InstantiateGenerics)
-	prog.Build()
+	// Function bodies are only needed for the module's own packages: every rule treats callees
+	// outside the module as opaque (by name / signature).  Building the ~100 dependency packages
+	// as well costs ~1 GB of freshly faulted memory per run for nothing.
+	if os.Getenv("WZ_BUILD_ALL") != "" {
+		prog.Build()
+	} else {
+		for _, sp := range ssapkgs {
+			if sp != nil && strings.HasPrefix(sp.Pkg.Path(), modPath) {
+				sp.Build()
+			}
+		}
+	}
 	p.SSA = prog
 	for i, sp := range ssapkgs {
 		if sp != nil {
